@@ -53,6 +53,10 @@ pub fn drop_privileges(uid: u32) -> Result<(), String> {
 #[derive(Clone, Debug, PartialEq, Eq, Serialize, Deserialize)]
 pub enum OverMount {
     TmpfsOn(String),
+    /// tmpfs over a procfs directory, populated with one link per former child name that
+    /// climbs out of the tmpfs again ("<name> -> ../../1/…"): a lookup that is allowed to
+    /// enter the over-mount comes out on genuine procfs, at another process's entry
+    TmpfsWithClimbers(String),
     BindDirOn(String, String),
     /// bind `src` over `dst`; `dst` may be a symlink / magic-link (mounted through an O_PATH|O_NOFOLLOW descriptor)
     BindFileOnLink(String, String),
@@ -98,11 +102,39 @@ pub fn tmpfs_on(dst: &str) -> Result<(), i32> {
     }
 }
 
+/// Mount a tmpfs on `dst` (a directory below /proc) and fill it with climbing links.
+pub fn tmpfs_with_climbers(dst: &str) -> Result<(), i32> {
+    let rel = dst.trim_start_matches("/proc/").trim_end_matches('/');
+    let comps: Vec<&str> = rel.split('/').filter(|c| !c.is_empty()).collect();
+    let me = std::process::id().to_string();
+    let numeric = |c: &str| !c.is_empty() && c.bytes().all(|b| b.is_ascii_digit());
+    // the same place below pid 1 (our pid / tid replaced by 1); for non-pid directories: "1"
+    let mirror: Vec<String> = if comps.first().map(|c| *c == me || *c == "self" || *c == "thread-self").unwrap_or(false) { comps.iter().map(|c| if numeric(c) || *c == "self" || *c == "thread-self" { "1".to_string() } else { c.to_string() }).collect() } else { vec!["1".to_string()] };
+    let climb = "../".repeat(comps.len());
+    let children: Vec<Vec<u8>> = match openat_raw(libc::AT_FDCWD, dst.as_bytes(), libc::O_RDONLY | libc::O_DIRECTORY, 0) {
+        Ok(fd) => {
+            let l = listdir(fd).unwrap_or_default();
+            close(fd);
+            l
+        }
+        Err(e) => return Err(e),
+    };
+    tmpfs_on(dst)?;
+    for c in children.iter().take(40) {
+        let name = String::from_utf8_lossy(c).to_string();
+        let target_name = if numeric(&name) { "1".to_string() } else { name.clone() };
+        let body = format!("{}{}/{}", climb, mirror.join("/"), target_name);
+        let _ = std::os::unix::fs::symlink(&body, format!("{}/{}", dst, name));
+    }
+    Ok(())
+}
+
 pub fn apply_overmounts(plans: &[OverMount]) -> Vec<String> {
     let mut log = vec![];
     for p in plans {
         let r = match p {
             OverMount::TmpfsOn(d) => tmpfs_on(d),
+            OverMount::TmpfsWithClimbers(d) => tmpfs_with_climbers(d),
             OverMount::BindDirOn(s, d) | OverMount::BindFileOnLink(s, d) => bind_over(s, d),
             OverMount::BindLinkOnLink(s, d) => bind_over2(s, d, true),
         };
@@ -134,6 +166,8 @@ pub enum MKind {
     BindSymlink,
     /// a procfs symlink (/proc/self) or magic-link (/proc/1/cwd) as the mount source
     BindProcLink,
+    /// tmpfs populated with links that climb back out onto procfs (directories only)
+    TmpfsClimbers,
 }
 
 #[derive(Clone, Debug, Serialize, Deserialize)]
@@ -150,7 +184,7 @@ pub fn strategy() -> impl Strategy<Value = Case> {
     (
         prop_oneof![3 => Just(HKind::New), 2 => Just(HKind::Fsmount), 2 => Just(HKind::OpenTree), 2 => Just(HKind::OpenTreeRecursiveBefore), 2 => Just(HKind::OpenTreeRecursiveAfter), 3 => Just(HKind::PlainOpen), 2 => Just(HKind::CApi)],
         prop_oneof![3 => Just(Kcfg::Full), 3 => Just(Kcfg::NoOpenat2), 1 => Just(Kcfg::NoFsopen), 2 => Just(Kcfg::NoMountApi), 2 => Just(Kcfg::NoOpenat2NoMountApi), 1 => Just(Kcfg::NoOpenat2NoFsopen)],
-        vec((any::<u16>(), prop_oneof![2 => Just(MKind::Tmpfs), 2 => Just(MKind::BindForeign), 2 => Just(MKind::BindProcfs), 2 => Just(MKind::BindSymlink), 1 => Just(MKind::BindProcLink)]), 1..=4),
+        vec((any::<u16>(), prop_oneof![2 => Just(MKind::Tmpfs), 2 => Just(MKind::BindForeign), 2 => Just(MKind::BindProcfs), 2 => Just(MKind::BindSymlink), 1 => Just(MKind::BindProcLink), 2 => Just(MKind::TmpfsClimbers)]), 1..=4),
         vec((any::<u16>(), prop_oneof![3 => Just(POp::Open), 3 => Just(POp::OpenFollow), 2 => Just(POp::Readlink)], 0u8..4), 4..=16),
     )
         .prop_map(|(handle, kcfg, mounts, requests)| Case { handle, kcfg, mounts, requests })
@@ -345,6 +379,8 @@ pub fn child(case: &Case) -> Report {
             }
             let plan = match (ty, mk) {
                 ('d', MKind::Tmpfs) => OverMount::TmpfsOn(dst),
+                ('d', MKind::TmpfsClimbers) => OverMount::TmpfsWithClimbers(dst),
+                (_, MKind::TmpfsClimbers) => OverMount::BindFileOnLink(sb.outside().join("secret.f").to_string_lossy().to_string(), dst),
                 ('d', MKind::BindForeign) | ('d', MKind::BindSymlink) => OverMount::BindDirOn(sb.outside().join("dir").to_string_lossy().to_string(), dst),
                 ('d', MKind::BindProcfs) | ('d', MKind::BindProcLink) => OverMount::BindDirOn("/proc/1".to_string(), dst),
                 (_, MKind::BindProcfs) => OverMount::BindFileOnLink("/proc/version".to_string(), dst),
@@ -668,7 +704,7 @@ pub fn race_strategy() -> impl Strategy<Value = RaceCase> {
         prop_oneof![2 => Just(Kcfg::Full), 2 => Just(Kcfg::NoOpenat2), 1 => Just(Kcfg::NoFsopen), 3 => Just(Kcfg::NoMountApi), 4 => Just(Kcfg::NoOpenat2NoMountApi), 1 => Just(Kcfg::NoOpenat2NoFsopen)],
         (any::<u16>(), prop_oneof![3 => Just(POp::Open), 1 => Just(POp::Readlink)], 0u8..4),
         any::<u16>(),
-        prop_oneof![2 => Just(MKind::Tmpfs), 2 => Just(MKind::BindForeign), 2 => Just(MKind::BindProcfs), 2 => Just(MKind::BindSymlink), 1 => Just(MKind::BindProcLink)],
+        prop_oneof![2 => Just(MKind::Tmpfs), 2 => Just(MKind::BindForeign), 2 => Just(MKind::BindProcfs), 2 => Just(MKind::BindSymlink), 1 => Just(MKind::BindProcLink), 2 => Just(MKind::TmpfsClimbers)],
     )
         .prop_map(|(handle, kcfg, request, target, mkind)| RaceCase { handle, kcfg, request, target, mkind, only: None })
 }
@@ -857,6 +893,8 @@ pub fn race_child(case: &RaceCase) -> RaceReport {
         let is_dir = fstatat(libc::AT_FDCWD, dst.as_bytes(), true).map(|s| s.ftype() == libc::S_IFDIR).unwrap_or(false);
         let plan = match (is_dir, case.mkind) {
             (true, MKind::Tmpfs) => OverMount::TmpfsOn(dst.clone()),
+            (true, MKind::TmpfsClimbers) => OverMount::TmpfsWithClimbers(dst.clone()),
+            (false, MKind::TmpfsClimbers) => OverMount::BindFileOnLink(sb.outside().join("secret.f").to_string_lossy().to_string(), dst.clone()),
             (true, MKind::BindForeign) | (true, MKind::BindSymlink) => OverMount::BindDirOn(sb.outside().join("dir").to_string_lossy().to_string(), dst.clone()),
             (true, MKind::BindProcfs) | (true, MKind::BindProcLink) => OverMount::BindDirOn("/proc/1".to_string(), dst.clone()),
             (false, MKind::BindProcfs) => OverMount::BindFileOnLink("/proc/version".to_string(), dst.clone()),
@@ -1133,7 +1171,7 @@ fn replay(_ctx: &Ctx, check_name: &str, case: &Value) -> Result<(), Fail> {
 pub const PROP: Prop = Prop {
     id: "C06",
     level: "exploration",
-    rule: "in a private mount namespace: 1-4 over-mounts {tmpfs, bind of a foreign file/dir, bind of another procfs file/dir, bind of a foreign symlink whose body resolves inside procfs, bind of a procfs symlink or magic-link itself} on entries drawn from {uptime, sys, sys/kernel, sys/kernel/ostype, self, thread-self, mounts, net, <pid>, <pid>/status, fd, fd/200 (magic-link), cwd, ns, ns/mnt, attr, attr/current, environ, mounts, net, task, task/<tid>, task/<tid>/status|fd|cwd} (links are covered through an O_PATH|O_NOFOLLOW descriptor) x handle kind {ProcfsHandle::new(), try_from_fd of fsopen+fsmount / open_tree clone / recursive clone made before or after the mounts / plain open(\"/proc\"), C API global} x six kernel configurations (openat2 / fsopen / open_tree -> ENOSYS) x 4-16 calls {open, open_follow, readlink} x base x sub-path x flags. The harness knows which handle can see the mounts (it made both) and which dentries each request walks through (self, thread-self, net, mounts expanded). Oracle: a successful result is never an over-mount source, equals by (dev,ino)/link body the same lookup on a pristine descriptor of the same procfs instance made before the mounts, and non-following results are on procfs; a visible over-mount on the way => EXDEV; otherwise the call behaves exactly as on the pristine view. non-trivial = the request walks through an over-mounted entry; distinct by (request, handle, kcfg, mounted set). Second driver \"racing-mount\": one non-following call (open / readlink) x handle kind x kernel configuration x one over-mount on a dentry the call walks through (or, 1 in 2, an unrelated entry); the syscall gate counts the N system calls the un-raced call makes and the case is re-run 3N+1 times: the mount appears just before syscall k and stays / appears before k and is removed before k+1 / is in place from the start and removed before k, for every k. Oracle: a successful result is the object the un-raced call returns ((dev,ino) while that descriptor is held open; link body), on procfs, never the mount source; handles on a private instance and mounts off the way: outcome identical to the un-raced call; host-procfs handles: identical or EXDEV. non-trivial there = the mount was applied and is on the way; distinct by (call, handle, kcfg, mount, mode, k)",
+    rule: "in a private mount namespace: 1-4 over-mounts {tmpfs, tmpfs populated with links that climb back out onto procfs at another process's entry, bind of a foreign file/dir, bind of another procfs file/dir, bind of a foreign symlink whose body resolves inside procfs, bind of a procfs symlink or magic-link itself} on entries drawn from {uptime, sys, sys/kernel, sys/kernel/ostype, self, thread-self, mounts, net, <pid>, <pid>/status, fd, fd/200 (magic-link), cwd, ns, ns/mnt, attr, attr/current, environ, mounts, net, task, task/<tid>, task/<tid>/status|fd|cwd} (links are covered through an O_PATH|O_NOFOLLOW descriptor) x handle kind {ProcfsHandle::new(), try_from_fd of fsopen+fsmount / open_tree clone / recursive clone made before or after the mounts / plain open(\"/proc\"), C API global} x six kernel configurations (openat2 / fsopen / open_tree -> ENOSYS) x 4-16 calls {open, open_follow, readlink} x base x sub-path x flags. The harness knows which handle can see the mounts (it made both) and which dentries each request walks through (self, thread-self, net, mounts expanded). Oracle: a successful result is never an over-mount source, equals by (dev,ino)/link body the same lookup on a pristine descriptor of the same procfs instance made before the mounts, and non-following results are on procfs; a visible over-mount on the way => EXDEV; otherwise the call behaves exactly as on the pristine view. non-trivial = the request walks through an over-mounted entry; distinct by (request, handle, kcfg, mounted set). Second driver \"racing-mount\": one non-following call (open / readlink) x handle kind x kernel configuration x one over-mount on a dentry the call walks through (or, 1 in 2, an unrelated entry); the syscall gate counts the N system calls the un-raced call makes and the case is re-run 3N+1 times: the mount appears just before syscall k and stays / appears before k and is removed before k+1 / is in place from the start and removed before k, for every k. Oracle: a successful result is the object the un-raced call returns ((dev,ino) while that descriptor is held open; link body), on procfs, never the mount source; handles on a private instance and mounts off the way: outcome identical to the un-raced call; host-procfs handles: identical or EXDEV. non-trivial there = the mount was applied and is on the way; distinct by (call, handle, kcfg, mount, mode, k)",
     assumptions: &["kernel reports mount ids (6.18)", "racing mounts are placed at the boundaries between the library's system calls (every one of them, enumerated); a mount that lands while the kernel is inside one openat2 walk is not controllable from user space", "identity comparison for ProcfsHandle::new()/C API is only possible when they fall back to the host procfs"],
     lanes: |_| 16,
     run_lane,
